@@ -67,6 +67,8 @@ def is_record_type(q, ctx=None):
         return False
     if "iterator" in q:
         return False           # iterators are values (a position), not objects with fields
+    if "::" in q and "<" not in q and q.split("::")[-1].replace("_", "").isupper():
+        return False           # nested enumeration types (cxxGasPhase::GP_TYPE, cxxSurface::DIFFUSE_LAYER_TYPE, ...)
     if q.endswith("]"):
         return True
     return q.startswith(("std::", "cxx", "CVar", "CSelectedOutput", "class ", "struct ")) or (ctx is not None and q in ctx.record_types)
